@@ -44,7 +44,7 @@ static std::string check_population(solver* s, const char* phase) {
 
 enum Ev { NOTHING = 0, DIVIDE = 1, VANISH = 2 };
 typedef std::vector<std::vector<int>> History;        // per step: event per cell index
-struct Setup { int ncells; int kind; };                 // kind 0: all epithelial(3 face types); 1: middle cell epithelial with 2 face types; 2: last cell ECM-like static neighbour; 3: middle cell with a single face type
+struct Setup { int ncells; int kind; int incoming = 0; /* ids the cells carry when handed to the solver constructor: sw::incoming_ids() */ };                 // kind 0: all epithelial(3 face types); 1: middle cell epithelial with 2 face types; 2: last cell ECM-like static neighbour; 3: middle cell with a single face type
 
 static std::string hist_text(const History& h) { std::string s; for (auto& st : h) { if (!s.empty()) s += "|"; for (int e : st) s += char('0' + e); } return s; }
 static History hist_parse(const std::string& s) { History h(1); for (char ch : s) { if (ch == '|') h.push_back({}); else h.back().push_back(ch - '0'); } if (s.empty()) h.clear(); return h; }
@@ -64,7 +64,8 @@ static RunOut run_history(const Setup& su, const History& h, long* phases = null
     global_simulation_parameters p = sc::make_sim_params(sw::scratch_root() + "/c08", 0.3); p.time_step_ = 1e-3; p.sampling_period_ = 1e9; p.simulation_duration_ = 1e9; p.contact_cutoff_adhesion_ = 0.1; p.contact_cutoff_repulsion_ = 0.1;
     Tracker T; g_tr = &T;
     try {
-        sw::World W(cs, p);
+        sw::incoming_ids() = su.incoming; sw::World W(cs, p); sw::incoming_ids() = 0;
+        { std::string e = check_population(W.s.get(), "after_construction"); if (!e.empty() && stop_here(e, su.kind)) throw harness_abort(e); }
         sw::phase_cb() = [&](solver* s, const char* ph) { T.phases++; std::string e = check_population(s, ph); if (!e.empty() && stop_here(e, su.kind)) throw harness_abort(e); };
         for (size_t step = 0; step < h.size() && out.err.empty(); step++) {
             auto& L = W.cells(); std::set<unsigned> expect_gone, expect_divide;
@@ -102,8 +103,8 @@ static void enumerate(Result& R, const Setup& su, int depth, int max_cells_with_
         size_t k = std::min<size_t>(n, max_cells_with_events); long combos = 1; for (size_t i = 0; i < k; i++) combos *= 3;
         for (long code = 0; code < combos; code++) { if (h.empty() && !R.args.mine(g_unit++)) continue;   /* first-step assignments are dealt to the parallel shards */ std::vector<int> ev(n, NOTHING); long c = code; for (size_t i = 0; i < k; i++) { ev[i] = c % 3; c /= 3; }
             History h2 = h; h2.push_back(ev); long ph = 0; RunOut o = run_history(su, h2, &ph); R["transitions"]++; R["states"]++; R["phase_boundaries_checked"] += ph; R["divisions_executed"] += o.divisions; R["removals_executed"] += o.removals;
-            R.mix(o.final_key + o.err); R.distinct_case(std::to_string(su.kind) + "|" + o.final_key);
-            if (!o.err.empty()) { R.violation(clause_of(o.err) + "|setup=" + std::to_string(su.kind), "population of " + std::to_string(su.ncells) + " cells (setup " + std::to_string(su.kind) + "), history " + hist_json(h2) + ": " + o.err, "ncells=" + std::to_string(su.ncells) + "\nkind=" + std::to_string(su.kind) + "\nhist=" + hist_text(h2) + "\n"); continue; }
+            R.mix(o.final_key + o.err); R.distinct_case(std::to_string(su.kind) + "/" + std::to_string(su.incoming) + "|" + o.final_key);
+            if (!o.err.empty()) { R.violation(clause_of(o.err) + "|setup=" + std::to_string(su.kind), "population of " + std::to_string(su.ncells) + " cells (setup " + std::to_string(su.kind) + (su.incoming ? std::string(", cells handed to the solver with ids ") + (su.incoming == 1 ? "reversed" : "70000+3i") : std::string()) + "), history " + hist_json(h2) + ": " + o.err, "ncells=" + std::to_string(su.ncells) + "\nkind=" + std::to_string(su.kind) + "\nincoming=" + std::to_string(su.incoming) + "\nhist=" + hist_text(h2) + "\n"); continue; }
             if (o.threw) { R["histories_ended_by_exception"]++; R.tables["exceptions"][o.what.substr(0, 60)]++; continue; }
             if ((int)h2.size() < depth) frontier.push_back(h2);
             if (R["states"] % 200 == 1) R.sample("{\"cells\":" + std::to_string(su.ncells) + ",\"setup\":" + std::to_string(su.kind) + ",\"history\":" + hist_json(h2) + ",\"population_after_each_step\":" + std::to_string(o.pop_after_step.empty() ? 0 : o.pop_after_step.back()) + "}");
@@ -113,7 +114,7 @@ static void enumerate(Result& R, const Setup& su, int depth, int max_cells_with_
 
 static void explore(Result& R) {
     const bool th = R.args.thorough();
-    std::vector<Setup> setups = {{2, 0}, {3, 0}, {3, 1}, {3, 2}, {3, 3}}; if (th) setups.push_back({4, 0});
+    std::vector<Setup> setups = {{2, 0}, {3, 0}, {3, 1}, {3, 2}, {3, 3}, {2, 0, 1}, {3, 0, 1}, {3, 0, 2}}; if (th) { setups.push_back({4, 0}); setups.push_back({3, 2, 2}); setups.push_back({3, 1, 1}); }
     for (auto& su : setups) enumerate(R, su, (th && su.ncells < 4) ? 3 : 2, th ? 4 : 3);   // thorough: depth 3 for 2-3 cells, depth 2 (81 + 81*81 histories) for 4 cells
     sw::cleanup_scratch();
     R["evaluations"] = R["transitions"]; R["distinct_nontrivial"] = R["states"]; /* replaced by the measured union of final-population keys in the driver */ R["traces_validated_against_impl"] = R["transitions"];
@@ -121,6 +122,6 @@ static void explore(Result& R) {
     R.strings["rule"] = "distinct_nontrivial = number of DISTINCT final populations (hashed canonical key of ids, list order, meshes and couplings) reached by the histories; a state = a history of steps; a step assigns one of {nothing, divide, vanish} to every cell and runs 5 real solver iterations; all assignments are enumerated breadth first; at every H6 phase boundary (begin, divide, face_types, refine, contact, polarize, forces, integrate, stats, remove, end) and after every iteration: local id == list index, ids unique and fresh, couplings designate live nodes of existing other epithelial cells (phases where they are used), face owner == cell, face type index < number of face types";
     R.assumptions = {"cells are 42-node icospheres 0.05 apart (adhesion cut-off 0.1) so that couplings exist", "divide = division volume set to 0.9 V at a division opportunity; vanish = mesh scaled by 0.8 with the (per cell copy of the) type's minimum volume at 0.6 V", "a history ended by a std::exception (e.g. refinement failure) is counted, not flagged"};
 }
-static int replay(const Replay& rp, Result& R) { Setup su{(int)rp.geti("ncells"), (int)rp.geti("kind")}; History h = hist_parse(rp.get("hist")); RunOut a = run_history(su, h), b = run_history(su, h); sw::cleanup_scratch();
+static int replay(const Replay& rp, Result& R) { Setup su{(int)rp.geti("ncells"), (int)rp.geti("kind"), (int)rp.geti("incoming")}; History h = hist_parse(rp.get("hist")); RunOut a = run_history(su, h), b = run_history(su, h); sw::cleanup_scratch();
     if (a.err != b.err) { printf("replay diverged: %s / %s\n", a.err.c_str(), b.err.c_str()); return 0; } printf("history %s: %s\n", hist_json(h).c_str(), a.err.c_str()); if (!a.err.empty()) { R.violation(clause_of(a.err), a.err, ""); return 1; } return 0; }
 int main(int argc, char** argv) { return run_main(argc, argv, "C08", explore, replay); }
